@@ -56,7 +56,12 @@ class World:
                 mm.user_defined[i].label = word
             return mm
         self.types = [api.m.Amplifier, api.m.Generator, api.m.Filter, api.m.MultiSynth, api.m.Lfo, labelled_metamodule, api.m.Sampler]
-        self.other = api.Project()       # the foreign project
+        class CountingProject(api.Project):
+            """An application's Project subclass with a length (number of patterns carrying notes): zero right now."""
+
+            def __len__(self):
+                return 0
+        self.other = (api.Project if rng.random() < 0.5 else CountingProject)()       # the foreign project
         self.other_mod = self.other.new_module(api.m.Amplifier, name="foreign")
         self.other_pat = api.Pattern(name="foreignpat", tracks=1, lines=1)
         self.other.attach_pattern(self.other_pat)
